@@ -459,7 +459,7 @@ pub fn build(tier: &str) -> SimCheck {
         scenarios,
         oracle: Box::new(oracle),
         bound: if thorough { 3 } else { 2 },
-        limits: Limits { max_wall_s: if thorough { 2400.0 } else { 55.0 }, ..Default::default() },
+        limits: Limits { max_wall_s: if thorough { 2400.0 } else { 150.0 }, ..Default::default() },
         rule: "scenario = pool mode x pool_size {1,2} (1 primary + 1 replica) x 1-3 client programs out of 14 (transactions over both protocols, multi-statement, failed, COPY in/out, bad password, unknown pool, hard drop while idle / in transaction, FIN and Terminate in transaction, staying connected, admin clients leaving by Terminate / vanishing / thrown out for sending Parse) with an optional cancel-request connection; also a statement queued for the only server when PAUSE arrives (handed the server, gives it back, waits); also with a replica that cannot be logged in to (refuses / closes / FATAL at startup); all schedules with <= bound deviations; after EVERY event the pooler's registries (what SHOW POOLS/CLIENTS/SERVERS/STATS print) are compared with a ledger kept from the scripted clients' and the reference backend's logs; the SHOW commands themselves are run at the end".into(),
         assumptions: vec!["the registries are read through the same public functions the SHOW commands use (get_client_stats, get_server_stats, PoolStats::construct_pool_lookup, AddressStats)".into()],
     }
